@@ -647,7 +647,7 @@ func init() {
 				}
 			}
 		}
-		us = append(us, coldUnit("nasType", "qos", "handoff"))
+		us = append(us, coldUnit("nasType", "qos", "handoff", "shared-parse"))
 		return us
 	}
 	core.Register(p)
